@@ -24,6 +24,7 @@ import (
 	"strings"
 	"sync"
 	"time"
+	noderig "verif/h/rig"
 
 	"github.com/aergoio/aergo/v2/consensus/impl/dpos/bp"
 	"github.com/aergoio/aergo/v2/consensus/impl/dpos/slot"
@@ -154,6 +155,10 @@ type childSpec struct {
 func main() {
 	if len(os.Args) > 1 && os.Args[1] == "child" {
 		childMain(os.Args[2:])
+		return
+	}
+	if len(os.Args) > 1 && os.Args[1] == "node" {
+		noderig.ChildMain()
 		return
 	}
 	c := vf.Start("C09", "exploration")
@@ -290,6 +295,9 @@ func main() {
 				shift[strings.TrimPrefix(k, "observed.")] += v
 			}
 		}
+	}
+	if c.ReplayPath == "" {
+		runElection(c)
 	}
 	c.Set("adjacent_field_shift", map[string]interface{}{
 		"what": "one byte moved across the border of two byte-string fields that are neighbours in the signed serialization " +
